@@ -57,6 +57,8 @@ def run(ctx: Ctx) -> None:
     stateful = [f for f in data if any(x in f for x in ("err_120", "err_140", "err_179", "err_183", "err_185", "err_188", "err_184"))]
     rng.shuffle(data)
     groups = [stateful + [str(VERIF / "corpus" / "C04" / "kitchen.py")]]
+    nested = len(groups)
+    groups.append([str(VERIF / "corpus" / "C10" / "nested.py")])     # idioms of the record-keeping checks inside each other's constructs
     k = ctx.budget(2, 9)
     rest = [f for f in data if f not in stateful]
     groups += [rest[i::k] for i in range(k)][: ctx.budget(2, 9)]
@@ -73,10 +75,10 @@ def run(ctx: Ctx) -> None:
             continue
         codes = sorted({d[3] for d in full["out"] if d[3]})
         picks = []
-        sample_codes = codes if ctx.tier == "thorough" else rng.sample(codes, min(len(codes), 6 if gi else 10))
+        sample_codes = codes if ctx.tier == "thorough" or gi == nested else rng.sample(codes, min(len(codes), 6 if gi else 10))
         for c in sample_codes:
             picks.append(("only", [c]))
-            if ctx.tier == "thorough" or rng.random() < 0.5:
+            if ctx.tier == "thorough" or gi == nested or rng.random() < 0.5:
                 picks.append(("all-but", [c]))
             if ctx.tier == "thorough" or rng.random() < 0.3:
                 picks.append(("all-ignore", [c]))
